@@ -256,13 +256,13 @@ static Q dang(Q gy, Q gx, Q T) {
 }
 static Q qtan(const AuxAngle& z) { return (Q)z.y() / (Q)z.x(); }
 // residual of a tangent (as a double) against the reference: relative, with the representation limits of a double
-// taken into account (below 2^-1022 the unit is 2^-53 * 2^-1022 = half a denormal quantum; above DBL_MAX the
-// reference is +inf)
+// taken into account (below 2^-1021 the unit is 2^-53 * 2^-1021 = 2^-1074, one denormal quantum, i.e. the budget
+// is counted in units of the local spacing; above DBL_MAX the reference is +inf)
 static long long relT(Q got, Q ref) {
   if (qnan(got) || qnan(ref)) return RNAN;
   if (ref > (Q)1.7976931348623157e308) ref = 1 / (Q)0.0;
   if (got == ref) return 0;
-  Q mn = ldexpq(1, -1022);
+  Q mn = ldexpq(1, -1021);
   if (qabs(ref) < mn) return absU(got, ref, mn);
   return relU(got, ref);
 }
@@ -384,11 +384,11 @@ static double rnd_a(vt::Rng& g) { static const double A[] = {1, 6378137, 4194304
 static AuxAngle rnd_ang(vt::Rng& g) {
   int w = int(g.range(0, 15)); double t;
   if (w < 7) t = tan(g.uni(0, 1.5707963267948966));
-  else if (w < 10) t = ldexp(g.uni(1, 2), int(g.range(-1050, 800)));
+  else if (w < 10) t = ldexp(g.uni(1, 2), int(g.range(-800, 550)));
   else if (w == 10) t = ldexp(g.uni(1, 2), int(g.range(-60, 60)));
   else if (w == 11) t = 1 + g.uni(-1e-6, 1e-6);
-  else if (w == 12) t = ldexp(g.uni(1, 2), int(g.range(-1050, -1000)));      // denormal tangents (the last 24 binades: 'den' records)
-  else if (w == 13) t = ldexp(g.uni(1, 2), int(g.range(700, 800)));       // beyond 2^800: 'den' records
+  else if (w == 12) t = ldexp(g.uni(1, 2), int(g.range(-800, -700)));      // denormal tangents (the last 24 binades: 'den' records)
+  else if (w == 13) t = ldexp(g.uni(1, 2), int(g.range(450, 550)));       // beyond 2^800: 'den' records
   else t = tan(g.uni(1.5, 1.5707963267948966));
   if (g.coin()) t = -t;
   if (g.range(0, 3) == 0 && fabs(t) > 1e-270 && fabs(t) < 1e270) { double x = ldexp(g.uni(1, 2), int(g.range(-30, 30))); return AuxAngle(t * x, x); }
@@ -895,7 +895,10 @@ static void rec_den(vt::Rng& g) {
   bool ser = g.range(0, 3) == 0; double f = rnd_f(g, ser); AuxCtx& C = ctx_for(rnd_a(g), f);
   int a, b; rnd_pair(g, a, b); int m = ser ? 0 : 1;
   double t;
-  if (g.coin()) { int e = int(g.range(-1074, -1045)); t = ldexp(g.coin() ? 1.0 : g.uni(1, 2), e); if (t == 0) t = ldexp(1.0, -1074); }
+  int w = int(g.range(0, 3));
+  if (w == 0) { int e = int(g.range(-1074, -1040)); t = ldexp(g.coin() ? 1.0 : g.uni(1, 2), e); if (t == 0) t = ldexp(1.0, -1074); }
+  else if (w == 1) t = ldexp(g.uni(1, 2), int(g.range(-1040, -800)));
+  else if (w == 2) t = ldexp(g.uni(1, 2), int(g.range(550, 800)));
   else t = ldexp(g.uni(1, 2), int(g.range(800, 1023)));
   if (g.coin()) t = -t;
   AuxAngle z(t, 1.0), o = C.aux.Convert(a, b, z, m != 0);
